@@ -264,6 +264,79 @@ def main(tier, seed):
                         ctx.fail(f'after a column of the reference was {"moved to another table" if move == "rehome" else "removed from its table"}, '
                                  f'asking .{k} again gives {got} instead of {w} (an earlier answer is remembered)', {'op': 'again', 'case': [typ, n, move]})
 
+    # ---- part 2c: an element no table holds behaves as one that was never offered to a table - whatever was tried with it
+    # before (an add that was refused, an add followed by a delete, the constructor's own list arguments)
+    def never_added(flav):
+        tt = Table('t1')
+        cc = Column('c1', 'int')
+        tt.add_column(cc)
+        ix = Index([cc], name='ix', **flav)
+        return ix
+
+    def obs_index(ix):
+        o = {k: O.run(f) for k, f in (('sql', lambda: ix.sql), ('dbml', lambda: ix.dbml))}
+        o = {k: ('ok' if v[0] == 'ok' else O.norm_class(v[1])) for k, v in o.items()}
+        o['table is None'] = ix.table is None
+        return o
+
+    for flav in FLAVOURS['index']:
+        flav = {k: v for k, v in flav.items() if k != 'name'}
+        want = obs_index(never_added(flav))
+        for hist in ('refused: foreign column', 'refused: foreign column among own ones', 'refused by the constructor', 'added then deleted',
+                     'refused twice', 'refused, then accepted by the right table'):
+            t1, t2 = Table('t1'), Table('t2')
+            c1, c1b, c2 = Column('c1', 'int'), Column('c1b', 'int'), Column('c2', 'int')
+            t1.add_column(c1)
+            t1.add_column(c1b)
+            t2.add_column(c2)
+            subj = {'refused: foreign column among own ones': [c1, c2]}.get(hist, [c1])
+            ix = Index(subj, name='ix', **flav)
+            refused = None
+            if hist.startswith('refused: foreign') or hist in ('refused twice', 'refused, then accepted by the right table'):
+                for _ in range(2 if hist == 'refused twice' else 1):
+                    refused = O.run(lambda: t2.add_index(ix))
+            elif hist == 'refused by the constructor':
+                refused = O.run(lambda: Table('t3', columns=[Column('z', 'int')], indexes=[ix]))
+            else:
+                t1.add_index(ix)
+                t1.delete_index(ix)
+            ctx.case(core.h(['orphan index', hist, sorted(flav.items())]), True,
+                     sample={'history': hist, 'flavour': flav} if not flav else None)
+            ctx.count('orphan-index:' + hist)
+            if refused is not None and refused[0] == 'ok':
+                ctx.fail('a table accepts an index over a column it does not hold', {'op': 'orphan_index', 'case': [hist, flav]})
+                continue
+            if hist == 'refused, then accepted by the right table':
+                t1.add_index(ix)
+                got = obs_index(ix)
+                if got != {'sql': 'ok', 'dbml': 'ok', 'table is None': False} or ix.table is not t1 or not any(x is ix for x in t1.indexes) \
+                        or any(x is ix for x in t2.indexes):
+                    ctx.fail('an index refused by one table and then added to the table holding its columns does not render there',
+                             {'op': 'orphan_index', 'case': [hist, flav]}, got=got)
+                continue
+            got = obs_index(ix)
+            held = any(x is ix for x in t1.indexes + t2.indexes)
+            if got != want or held:
+                ctx.fail(f'an index no table holds ({hist}) does not behave like one never offered to a table: {got} instead of {want}'
+                         + (' and a table lists it' if held else ''), {'op': 'orphan_index', 'case': [hist, flav]}, got=got)
+    # the same for a column: refused by add_column (not a Column / ...) is not expressible; removed columns are
+    for hist in ('added then deleted', 'deleted by position'):
+        tt = Table('t1')
+        ca, cb = Column('a', 'int'), Column('b', 'int')
+        tt.add_column(ca)
+        tt.add_column(cb)
+        if hist == 'added then deleted':
+            tt.delete_column(cb)
+        else:
+            tt.delete_column(1)
+        fresh_c = Column('b', 'int')
+        want = {'table is None': True, 'get_refs': O.norm_class(O.run(lambda: fresh_c.get_refs())[1])}
+        r_ = O.run(lambda: cb.get_refs())
+        got = {'table is None': cb.table is None, 'get_refs': 'ok' if r_[0] == 'ok' else O.norm_class(r_[1])}
+        ctx.case(core.h(['orphan column', hist]), True, sample={'history': hist, 'observed': got})
+        if got != want or any(x is cb for x in tt.columns):
+            ctx.fail(f'a column removed from its table ({hist}) does not behave like one never added', {'op': 'orphan_column', 'case': [hist]}, got=got)
+
     # ---- part 3: get_refs on detached objects
     cases = []
     for has_table in (False, True):
@@ -297,7 +370,7 @@ def main(tier, seed):
         rule='exhaustive: 6 element kinds x every subset (size<=2, and all) of required attributes unset x attached/detached x '
              'reached by constructor or by editing, rendered directly, through the parent table and through the database; '
              'references: every assignment of {detached, table A, table B} to 1-2 (thorough 3) columns per side x 4 kinds x '
-             'inline; get_refs on all 4 attachment states. Non-trivial: something unset / detached / mixed; distinct by case hash',
+             'inline; indexes no table holds after 5 kinds of history x 4 flavours (same behaviour as a never-offered index); get_refs on all 4 attachment states. Non-trivial: something unset / detached / mixed; distinct by case hash',
         explanation='Decision logic stated outright as Lean theorems over the model of check_attributes_for_sql and the '
                     'reference validations; model tied to the real classes by exhaustive enumeration of the finite case space; '
                     'oracle: the statement itself evaluated on the real objects.',
